@@ -275,7 +275,7 @@ def observe(store, part, what):
         except Exception as e:
             obs["tsq"][label] = "EXC:" + type(e).__name__
     obs["keyq"] = {}
-    for label, prop, op, val, _ in KEY_QUERIES:
+    for label, prop, op, val, _ in (KEY_QUERIES if what != "loaded" else ()):        # a re-loaded store is compared on all / versions / get / types only
         try:
             obs["keyq"][label] = sorted(((o["id"], instant_of(o)) for o in store.query([Filter(prop, op, val)])), key=str)
         except Exception as e:
@@ -353,6 +353,8 @@ def compare(sname, obs, model, part, case, conflicted):
                            dict(case, query=label), exp_q, gq)
     for label, prop, op, val, pred in KEY_QUERIES:
         exp_k = sorted(((i, x) for (i, x) in model.keys() if pred(i.split("--")[0], i)), key=str)
+        if label not in obs["keyq"]:
+            continue
         gk = obs["keyq"][label]
         if isinstance(gk, str):
             part.violation("C11/%s/key-query-raises/%s/%s:%s" % (sname, gk, prop, op), "a query by type / id raises", dict(case, query=label), exp_k, gk)
